@@ -111,6 +111,11 @@ func equivBits(x, y Bit, maxLeaves int) (equal bool, decided bool, detail string
 			a := evalWith(x, bigAnd, asg)
 			b := evalWith(y, bigAnd, asg)
 			if a != b {
+				if bigAnd < 1<<30 {
+					// abbreviating large conjunctions loses their meaning:
+					// only an "equal" verdict is sound at this stage
+					goto nextStage
+				}
 				var parts []string
 				for i, id := range ids {
 					parts = append(parts, fmt.Sprintf("%s=%d", U.atoms[id], m>>i&1))
@@ -119,8 +124,73 @@ func equivBits(x, y Bit, maxLeaves int) (equal bool, decided bool, detail string
 			}
 		}
 		return true, true, ""
+	nextStage:
 	}
-	return false, false, "too many atoms for a truth table"
+	// lazily expanded truth table (Shannon expansion with early termination)
+	budget := 400000
+	diff := bxor(x, y)
+	ok, done, wit := shannonZero(diff, newFactSet(nil), &budget, nil)
+	if !done {
+		return false, false, "too many atoms for a truth table"
+	}
+	if !ok {
+		return false, true, "differ when " + strings.Join(wit, " ")
+	}
+	return true, true, ""
+}
+
+// shannonZero decides whether d is identically 0 by case-splitting on its
+// leaf atoms; budget bounds the number of expansions.
+func shannonZero(d Bit, fs *factSet, budget *int, trail []string) (zero bool, decided bool, witness []string) {
+	d = fs.bit(d)
+	if d.top {
+		return false, false, nil
+	}
+	if isConst(d) {
+		return !d.c, true, trail
+	}
+	*budget--
+	if *budget <= 0 {
+		return false, false, nil
+	}
+	a := firstLeaf(d)
+	if a == nil {
+		return false, false, nil
+	}
+	for _, v := range []bool{false, true} {
+		nf := newFactSet(fs)
+		nf.atoms[a.id] = v
+		val := "0"
+		if v {
+			val = "1"
+		}
+		z, dec, w := shannonZero(d, nf, budget, append(append([]string(nil), trail...), a.String()+"="+val))
+		if !dec {
+			return false, false, nil
+		}
+		if !z {
+			return false, true, w
+		}
+	}
+	return true, true, nil
+}
+
+func firstLeaf(b Bit) *atom {
+	for _, id := range b.atoms {
+		a := U.atoms[id]
+		if a.kind == aSrc {
+			if a.src.Def != nil || a.src.Term != nil {
+				// treat derived atoms as leaves too (uninterpreted)
+			}
+			return a
+		}
+		for _, o := range a.ops {
+			if l := firstLeaf(o); l != nil {
+				return l
+			}
+		}
+	}
+	return nil
 }
 
 func collectLeaves(b Bit, bigAnd int, into map[int32]*atom) {
